@@ -235,6 +235,18 @@ impl Traits {
     }
 
     #[must_use]
+    pub fn xml_attribute(&self) -> bool {
+        self.get("smithy.api#xmlAttribute").is_some()
+    }
+
+    /// `(prefix, uri)` of a namespace that is declared with a prefix
+    #[must_use]
+    pub fn xml_namespace_prefix(&self) -> Option<(&str, &str)> {
+        let ns = self.get("smithy.api#xmlNamespace")?.as_object()?;
+        Some((ns.get("prefix")?.as_str()?, ns.get("uri")?.as_str()?))
+    }
+
+    #[must_use]
     pub fn s3_unwrapped_xml_output(&self) -> bool {
         self.get("aws.customizations#s3UnwrappedXmlOutput").is_some()
     }
